@@ -16,7 +16,7 @@ import (
 // ListHistory describes how a list reaches its internal condition (relation
 // between length and capacity) before the derivation.
 type ListHistory struct {
-	Ctor   int       `json:"ctor"` // 0 NewList(vals) 1 NewListFrom([]any) 2 NewListOf(v,n) 3 NewList()+Add one by one
+	Ctor   int       `json:"ctor"` // 0 NewList(vals) 1 NewListFrom([]any) 2 NewListOf(v,n) 3 NewList()+Add one by one 4-7 NewListFrom([]int/[]string/[]float64/[]bool)
 	Init   []ValSpec `json:"init"`
 	Adds   []ValSpec `json:"adds"`   // Add one by one (growth)
 	Insert []int     `json:"insert"` // raw positions for Insert of the int -(i+1)
@@ -73,10 +73,19 @@ var objectMuts = []string{"Set", "Unset", "Clear"}
 
 func genHistory(t *rapid.T, allowEmpty bool) ListHistory {
 	h := ListHistory{Ctor: drawInt(t, 0, 3, "ctor")}
+	if oneIn(t, 5, "typedorigin") {
+		h.Ctor = drawInt(t, 4, 7, "typedctor") // NewListFrom([]int / []string / []float64 / []bool)
+	}
 	if allowEmpty && oneIn(t, 4, "empty") {
 		return h
 	}
 	h.Init = genVals(t, 0, 5, 1)
+	if h.Ctor >= 4 {
+		h.Init = genVals(t, 1, 6, 0)
+		if drawBool(t, "untouched") {
+			return h // a list that has not been modified since it was built from the typed slice
+		}
+	}
 	nadd := []int{0, 1, 2, 3, 4, 5, 7, 8, 9, 15, 16, 17, 31, 33, 40, 63, 64, 65, 100, 129, 256, 257}[drawIdx(t, 22, "nadd")]
 	for i := 0; i < nadd; i++ {
 		h.Adds = append(h.Adds, genValSpec(t, 1))
@@ -152,7 +161,31 @@ func buildFromHistory(h ListHistory) at.List {
 	for i, s := range h.Init {
 		init[i] = specValue(s)
 	}
-	switch h.Ctor % 4 {
+	switch h.Ctor % 8 {
+	case 4:
+		s := make([]int, len(h.Init))
+		for i, v := range h.Init {
+			s[i] = int(v.I) + i
+		}
+		l = at.NewListFrom(s)
+	case 5:
+		s := make([]string, len(h.Init))
+		for i, v := range h.Init {
+			s[i] = v.S + string(rune('a'+i))
+		}
+		l = at.NewListFrom(s)
+	case 6:
+		s := make([]float64, len(h.Init))
+		for i, v := range h.Init {
+			s[i] = float64(v.I) + float64(i)/2
+		}
+		l = at.NewListFrom(s)
+	case 7:
+		s := make([]bool, len(h.Init))
+		for i := range h.Init {
+			s[i] = i%2 == 0
+		}
+		l = at.NewListFrom(s)
 	case 0:
 		l = at.NewList(init...)
 	case 1:
@@ -736,7 +769,7 @@ func CheckC09(c *C09Case, st *Stats) error {
 			}
 		}
 	}
-	if mutatedRecvOrResult && (spare || grown || emptyArg || c.ObjectMode || abortedAny) {
+	if mutatedRecvOrResult && (spare || grown || emptyArg || c.ObjectMode || abortedAny || c.Recv.Ctor >= 4) {
 		st.MarkNonTrivial()
 	}
 	// After this history, every derivation must give what it gives on a freshly built container with
@@ -797,6 +830,6 @@ func c09fp(name string, x any) string {
 
 func init() {
 	Register("C09",
-		"receiver and argument are built through a drawn history (constructor NewList/NewListFrom/NewListOf/Add-by-Add, 0-129 further Adds crossing capacity boundaries, Inserts, then 0-3 Pops and 0-2 Deletes so that length/capacity relations vary; the argument may be empty), then 1-2 derivations from the same receiver drawn from the full table (Concat incl. self, SubList, 6 Filter*, 9 Map* incl. MapAsync, Slice and the 6 typed slices, 4 Reduce*, String, FormatString, Equals, Contains, IndexOf; for objects Merge incl. self, Pluck, Keys, Values, Dict, 9 Map*, String, FormatString, Equals, Contains), then 1-8 top-level mutations (Add, Insert, Replace, Delete, Pop, Clear, Sort in domain, Reverse, Set, Unset; element assignment / append within capacity / delete for Go slices and maps) on any participant; one derivation in five has a callback that panics on its 1st-4th invocation (the harness recovers, as a caller would), after which inputs must be unchanged and every later mutation must still work. Oracle: top-level slot snapshots (scalar value or identity of the nested container per slot) of receiver and argument are unchanged by the derivation, and after every mutation every other participant's snapshot is unchanged; snapshots own their string bytes, and every later derivation (the second one, and the repeated ones at the end, also from an unrelated container) must leave every earlier result as it was. Non-trivial = at least one mutation of the receiver or a result after a derivation from a receiver with Pop/Delete or growth history, or with an empty argument, or in object mode. Distinct = distinct FNV-64a hash of the case JSON.",
+		"receiver and argument are built through a drawn history (constructor NewList/NewListFrom/NewListOf/Add-by-Add or, in one case of five, a typed Go slice of ints/strings/floats/bools - half of those lists are then left untouched; 0-129 further Adds crossing capacity boundaries, Inserts, then 0-3 Pops and 0-2 Deletes so that length/capacity relations vary; the argument may be empty), then 1-2 derivations from the same receiver drawn from the full table (Concat incl. self, SubList, 6 Filter*, 9 Map* incl. MapAsync, Slice and the 6 typed slices, 4 Reduce*, String, FormatString, Equals, Contains, IndexOf; for objects Merge incl. self, Pluck, Keys, Values, Dict, 9 Map*, String, FormatString, Equals, Contains), then 1-8 top-level mutations (Add, Insert, Replace, Delete, Pop, Clear, Sort in domain, Reverse, Set, Unset; element assignment / append within capacity / delete for Go slices and maps) on any participant; one derivation in five has a callback that panics on its 1st-4th invocation (the harness recovers, as a caller would), after which inputs must be unchanged and every later mutation must still work. Oracle: top-level slot snapshots (scalar value or identity of the nested container per slot) of receiver and argument are unchanged by the derivation, and after every mutation every other participant's snapshot is unchanged; snapshots own their string bytes, and every later derivation (the second one, and the repeated ones at the end, also from an unrelated container) must leave every earlier result as it was. Non-trivial = at least one mutation of the receiver or a result after a derivation from a receiver with Pop/Delete or growth history or typed-slice origin, or with an empty argument, or in object mode. Distinct = distinct FNV-64a hash of the case JSON.",
 		GenC09, CheckC09)
 }
